@@ -7,12 +7,65 @@ import (
 	"github.com/openacid/low/bitmap"
 )
 
+var c13Tick int
+
 func init() {
+	// One case in 16: after the lone call, the same query is made by three callers at once on the SAME
+	// bitmap, next to three callers making other queries on it (ends / starts sweeping the whole bitmap).
+	// Readers share a bitmap freely; the first answer that differs from the lone caller's is the observation.
+	c13Shared := func(bm []uint64, lone int32, same func() int32, other func(g, j int)) int32 {
+		c13Tick++
+		if c13Tick%16 != 0 || len(bm) == 0 {
+			return lone
+		}
+		var bad [3]struct {
+			hit bool
+			v   int32
+		}
+		lockstep(6, 120, func(g, j int) {
+			if g < 3 {
+				if v := same(); v != lone && !bad[g].hit {
+					bad[g].hit, bad[g].v = true, v
+				}
+			} else {
+				func() {
+					defer func() { recover() }()
+					other(g-3, j)
+				}()
+			}
+		})
+		for _, b := range bad {
+			if b.hit {
+				return b.v
+			}
+		}
+		return lone
+	}
 	Exec["bitmap.NextOne"] = func(a []V) string {
-		return I32(bitmap.NextOne(a[0].U64s(), a[1].I32(), a[2].I32()))
+		bm, i, e := a[0].U64s(), a[1].I32(), a[2].I32()
+		r := bitmap.NextOne(bm, i, e)
+		n := int32(64 * len(bm))
+		return I32(c13Shared(bm, r, func() int32 { return bitmap.NextOne(bm, i, e) }, func(g, j int) {
+			e2 := int32((j*3+g)*29)%n + 1
+			if g == 2 {
+				bitmap.PrevOne(bm, e2-1, e2)
+			} else {
+				bitmap.NextOne(bm, 0, e2)
+			}
+		}))
 	}
 	Exec["bitmap.PrevOne"] = func(a []V) string {
-		return I32(bitmap.PrevOne(a[0].U64s(), a[1].I32(), a[2].I32()))
+		bm, i, e := a[0].U64s(), a[1].I32(), a[2].I32()
+		r := bitmap.PrevOne(bm, i, e)
+		n := int32(64 * len(bm))
+		return I32(c13Shared(bm, r, func() int32 { return bitmap.PrevOne(bm, i, e) }, func(g, j int) {
+			p := int32((j*3+g)*29) % n
+			if g == 2 {
+				bitmap.NextOne(bm, 0, p+1)
+			} else {
+				bitmap.PrevOne(bm, p, n)
+			}
+		}))
 	}
 	// results for every end in [i, 64*len]
 	Exec["bitmap.NextOne/ends"] = func(a []V) string {
